@@ -35,6 +35,8 @@ PANIC_TABLE = {
     ("file::File::index_const", "panic", "panic_fmt"): "documented panicking constructor; callers proved in range",
     ("get_bishop_moves", "assert", "BoundsCheck"): "C05 in-bounds audit",
     ("get_rook_moves", "assert", "BoundsCheck"): "C05 in-bounds audit",
+    ("pext::get_pext_index", "assert", "Overflow:Add(usize)"):
+        "PEXT back end: C05 evaluates offset + pext(occupancy, mask) for every square and relevant subset and finds it inside the table",
     ("Board::parse_board*", "assert", "Overflow:Add(usize)"): "file += digit / += 1: each addend is at most 9 and the sum is bounded by the input length, far below usize::MAX (recorded assumption)",
 }
 
